@@ -923,6 +923,9 @@ def _minimize(generation_result, algorithm=None):
                             test_suite_minimizer.removed_test_cases,
                         )
 
+            # The minimizers change the test cases of the suite in place, without the suite
+            # noticing, so its cached coverage values are those from before the minimization.
+            generation_result.changed = True
             minimized_coverages = [
                 generation_result.get_coverage_for(fitness_function)
                 for fitness_function in fitness_functions
